@@ -210,8 +210,8 @@ def gen_descs(ctx):
                       xs=[x], kernels=[[[0.5]] * sizes[0], [[-1.0 * k] for k in range(sizes[0])]]))
   for _ in range(ctx.n(160, 3000)): out.append(gen_prod(rng))
   for _ in range(ctx.n(60, 1000)): out.append(gen_kfl(rng))
-  for _ in range(ctx.n(60, 1000)): out.append(gen_lattice(rng, "hypercube"))
-  for _ in range(ctx.n(60, 1000)): out.append(gen_lattice(rng, "simplex"))
+  for _ in range(ctx.n(110, 1000)): out.append(gen_lattice(rng, "hypercube"))
+  for _ in range(ctx.n(110, 1000)): out.append(gen_lattice(rng, "simplex"))
   for _ in range(ctx.n(70, 1000)): out.append(gen_pwl(rng))
   for _ in range(ctx.n(30, 500)): out.append(gen_cat(rng))
   return out
